@@ -1,6 +1,6 @@
 ENGINES = [
-    {"name": "E1-symreal", "path": "engine/symreal", "serves_properties": ["C01", "C03", "C04", "C05", "C06", "C07", "C08", "C10", "C11"], "kind_free_text": "symbolic execution of the unmodified formak Python on z3-backed reals (operator overloading + numpy shim, DART-style path exploration with solver pruning)"},
-    {"name": "E2-vsym", "path": "engine/vsym", "serves_properties": ["C02", "C06", "C07", "C08", "C10", "C11", "C12"], "kind_free_text": "symbolic execution of the real generated C++ / ManagedFilter.h / innovation_filtering.h: compiled by g++ with `double` replaced by a DAG-building scalar, stand-in Eigen/Dense, fork(2) at every symbolic branch, leaves emitted as SMT-LIB and loaded into z3"},
+    {"name": "E1-symreal", "path": "engine/symreal", "serves_properties": ["C01", "C03", "C04", "C05", "C06", "C07", "C08", "C10", "C11", "C13", "C19"], "kind_free_text": "symbolic execution of the unmodified formak Python on z3-backed reals (operator overloading + numpy shim, DART-style path exploration with solver pruning)"},
+    {"name": "E2-vsym", "path": "engine/vsym", "serves_properties": ["C02", "C06", "C07", "C08", "C10", "C11", "C12", "C13"], "kind_free_text": "symbolic execution of the real generated C++ / ManagedFilter.h / innovation_filtering.h: compiled by g++ with `double` replaced by a DAG-building scalar, stand-in Eigen/Dense, fork(2) at every symbolic branch, leaves emitted as SMT-LIB and loaded into z3"},
 ]
 NOTES = "Solver-based checking (z3 5.1) of the real code; see DESIGN.md. Exit codes: 0 ok, 1 violation, 2 harness error/inconclusive machinery."
 NA["C14"] = "structural accept/reject over sets/dicts of sympy objects: the only symbolic treatment is forking on every membership bit, i.e. enumeration of concrete definitions with the solver as bystander (DESIGN 11)"
@@ -52,3 +52,12 @@ chk("C12", "other",
     "For control x calibration x {0,1,2 sensors} the generated filter is instantiated in the real ManagedFilter.h (static_assert compatible, every applicable tick overload, wrap + virtual dispatch), ticked on symbolic values along concrete time schedules, and compared with process_model/sensor_model called by hand in the order C11 specifies: all named outputs and the held state equal (term identity after identifying inverse cut-points, else z3). The 'compiles' clause is decided by g++.",
     "Timestamps concrete here (symbolic in C10/C11); stand-in Eigen; compile clause by compiler not SMT.",
     "symbolic execution of generated filter under the real managed runtime + term/SMT equivalence; compiler for the compile clause", "E2-vsym", "5/C12")
+
+chk("C13", "translation_validation",
+    "(a) named vector/covariance constructors on symbolic values: each value is found (term identity) in the slot the harness derives from sorted names, the rest defaulted (0 / identity), unknown names and wrong shapes refused; (b) a model and its consistently renamed twin (all 6 sort-order permutations of 3 state names; hard name sets over states, controls, calibrations and reading names) are compiled separately with inputs bound through the renaming to the same z3 variables, and every named output of model/process_model/sensor_model (Python) and of the generated C++ filter is proved equal across the pair for all inputs; (c) same for set / reversed-list declarations and calibration declared as a list.",
+    "Renamings/containers are an enumerated family (stated); names colliding with generated scaffolding identifiers excluded; inverse cut-points identified through the reading permutation after proving arguments equal.",
+    "metamorphic twin symbolic execution (renaming / declaration order) + SMT equivalence", "E1-symreal + E2-vsym", "5/C13")
+chk("C19", "translation_validation",
+    "The strapdown reference model's update expressions (through a sympy->AST walker validated against sympy.N each run) and the compiled Python model of it (executed on symbolic reals, CSE on and off) are proved equal, state by state, for all 25 real inputs (|q x c|^2 != 0) to a rigid-body specification written in the harness with a hand-written Hamilton product; velocity/position via a guided chain (integral form over the implementation's own acceleration + acceleration == reference + congruence).",
+    "Quick tier proves all 16 states of the symbolic model and 11-12 states of the compiled model; thorough all 16 x 3. UF-free (polynomial/rational identities).",
+    "symbolic execution of the compiled reference model + SMT equivalence (QF_NRA) against an independent quaternion specification", "E1-symreal", "5/C19")
